@@ -1,3 +1,4 @@
+import CffiVerif.Generated.StructFlags
 /-!
 Model of the realisation of a struct/union of an API-mode module (C12).
 
@@ -11,6 +12,10 @@ positions, the compiler's total size and alignment, and `SF_STD_FIELD_POS` iff t
 declared without `...` (`_CFFI_F_CHECK_FIELDS`): `detect_custom_layout` (5133) then turns every
 difference between the layout computed from the cdef and the compiler's numbers into `ffi.error`;
 without the flag the compiler's numbers are adopted (`CT_CUSTOM_FIELD_POS`).
+
+The `sflags` argument is assembled from the table's `_CFFI_F_*` flags by the statements regenerated
+into `Generated/StructFlags.lean` (`sflagsOf`); `flagsOfTable` is what the layout code then reads out of
+it (`sflags & SF_STD_FIELD_POS`, `sflags & SF_PACKED` → pack = 1) and out of `s->flags` (`_CFFI_F_UNION`).
 
 Not modelled: bit-fields (offset `(size_t)-1`, never checked), nested anonymous structs (never
 checked: `_CFFI_F_CHECK_FIELDS` is not set), MSVC/ARM variants.  Alignments are parameters (the
@@ -156,5 +161,24 @@ def natural (fl : Flags) (fs : List Fld) : Nat3 :=
   let r := naturalLoop fl fs (0, 0, 1)
   let a0 := roundUp r.2.2.1 r.2.2.2
   ⟨r.1, if a0 = 0 then 1 else a0, r.2.2.2⟩
+
+/-! ### From the table's `_CFFI_F_*` flags to the layout call -/
+open CffiVerif.Generated
+
+def hasBit (x b : Nat) : Bool := x &&& b ≠ 0
+
+/-- What the layout code reads: `SF_STD_FIELD_POS` and `SF_PACKED` out of the assembled `sflags`
+    (do_realize_lazy_struct_lock_held), the union bit out of the ctype's kind. -/
+def flagsOfTable (flags : Nat) : Flags :=
+  let sf := StructFlags.sflagsOf flags
+  ⟨hasBit sf StructFlags.SF_STD_FIELD_POS, hasBit flags StructFlags.F_UNION, hasBit sf StructFlags.SF_PACKED⟩
+
+/-- What the generated table *declares*: checked iff `_CFFI_F_CHECK_FIELDS`, packed iff `_CFFI_F_PACKED`. -/
+def declaredFlags (flags : Nat) : Flags :=
+  ⟨hasBit flags StructFlags.F_CHECK_FIELDS, hasBit flags StructFlags.F_UNION, hasBit flags StructFlags.F_PACKED⟩
+
+/-- First use of the struct/union whose table entry carries `flags`. -/
+def realiseTable (flags : Nat) (fs : List Fld) (totalsize totalalign : Int) : Except Err Layout :=
+  realise (flagsOfTable flags) fs totalsize totalalign
 
 end CffiVerif.StructCheck
